@@ -60,19 +60,39 @@ def mutable_cache_is_locked(ctx, rc):
         raise AnalysisError('mutability flag of %s not found' % C)
     tbl = set(GUARDS[C].values())
     ok_real, bad = set(), []
-    for conds, st in cond_paths(init.node.body):
+    paths = cond_paths(init.node.body)
+    # definitions of locals (tuple assignments element-wise), with the
+    # conditions they stand under
+    ldefs = {}
+    for conds, st in paths:
+        if not isinstance(st, ast.Assign):
+            continue
+        for t in st.targets:
+            if isinstance(t, ast.Name):
+                ldefs.setdefault(t.id, []).append((st.value, conds))
+            elif isinstance(t, (ast.Tuple, ast.List)) and isinstance(
+                    st.value, (ast.Tuple, ast.List)) and len(
+                        t.elts) == len(st.value.elts):
+                for te, ve in zip(t.elts, st.value.elts):
+                    if isinstance(te, ast.Name):
+                        ldefs.setdefault(te.id, []).append((ve, conds))
+    for conds, st in paths:
         if not isinstance(st, ast.Assign):
             continue
         for t in st.targets:
             if isinstance(t, ast.Attribute) and t.attr in tbl:
-                real = isinstance(st.value, ast.Call) and ast.unparse(
-                    st.value.func).split('.')[-1] in ('Lock', 'RLock')
-                pol = [p for tst, p in conds if isinstance(
-                    tst, ast.Name) and tst.id == flag]
-                if real and (not pol or pol[-1]):
-                    ok_real.add(t.attr)
-                if not real and pol and pol[-1]:
-                    bad.append((t.attr, st))
+                vals = [(st.value, conds)]
+                if isinstance(st.value, ast.Name) and st.value.id in ldefs:
+                    vals = [(v, conds + c2) for v, c2 in ldefs[st.value.id]]
+                for v, cs in vals:
+                    real = isinstance(v, ast.Call) and ast.unparse(
+                        v.func).split('.')[-1] in ('Lock', 'RLock')
+                    pol = [p for tst, p in cs if isinstance(
+                        tst, ast.Name) and tst.id == flag]
+                    if real and (not pol or pol[-1]):
+                        ok_real.add(t.attr)
+                    if not real and pol and pol[-1]:
+                        bad.append((t.attr, st))
     key = 'the mutable cache owns real locks'
     missing = tbl - ok_real
     if missing or bad:
